@@ -15,8 +15,9 @@ EXPLANATION = (
     "the load (in run() before from_raw, and inside from_raw) is classified into the closed set {no/unknown extension, debugger attached, "
     "I/O error, odd length, empty, does not fit below 0x10000} - any other refusal rejects a loadable file; both sources of a run converge "
     "on the same from_raw. R5 (PANIC): closed panic ledger of the object-file path of run() and of from_raw."
-    ' R3 also accepts the staged form (pairs converted when stored, written by a drain loop) and the closure form of the word loop. R4 also requires the parity test to read the length of the buffer that is paired into words.'
+    ' R3 also accepts the staged form (pairs converted when stored, written by a drain loop) and the closure form of the word loop. R4 also requires the parity test to read the length of the buffer that is paired into words. R2 also: Air::set_orig stores Some(value) as given and Air::orig hands the field back as it is, so the origin written is the operand of .orig for every value (x0000 included).'
 )
+
 NOT_DECIDED = "behavioural equality of running the file vs. the source beyond R1-R4 and C03"
 
 RUN = "bin::run"
@@ -145,6 +146,24 @@ def run(ctx):
     ctx.oblig(ok)
     if not ok:
         ctx.violation("default-origin", tf.file_line(), "default origin: running a source uses %s, compile writes %s (both must be x3000)" % ([hex(x) for x in d_run], [hex(x) for x in d_cmp]))
+    # the origin both sides start from is the operand of `.orig` itself, for every value (x0000 included): set_orig records Some(value) as it
+    # was given, and orig() hands the recorded Option back as it is
+    so_, og_ = ctx.fn("lace::air::Air::set_orig"), ctx.fn("lace::air::Air::orig")
+    ctx.instance(1)
+    stores = [(b, s_) for b, i_, s_ in so_.assigns() if [e.get("n") for e in s_["p"].get("pr", []) if isinstance(e, dict) and "f" in e][-1:] == ["orig"]]
+    def verbatim_some(f, s_):
+        e = kit.strip_refs(f.rvalue_expr(s_["r"], 6))
+        return e[0] == "agg" and e[1][0] == "adt" and e[1][2] == "Some" and len(e[2]) == 1 and kit.strip_refs(e[2][0])[:2] == ("arg", 2)
+    ok = len(stores) >= 1 and all(verbatim_some(so_, s_) for b, s_ in stores)
+    rets_ = [og_.rvalue_expr(s_["r"], 6) for b, i_, s_ in og_.assigns() if s_["p"]["l"] == 0 and not s_["p"].get("pr")]
+    calls_ = [c for b, t, c in og_.calls()]
+    ok2 = len(rets_) == 1 and not calls_ and kit.strip_refs(rets_[0])[0] == "field" and kit.strip_refs(rets_[0])[2] == "orig"
+    ctx.oblig(ok and ok2, {"set_orig stores": [expr_str(so_.rvalue_expr(s_["r"], 6), 60) for b, s_ in stores], "orig() returns": [expr_str(r_, 60) for r_ in rets_]}, "Some(value) as given; the field as it is")
+    if not (ok and ok2):
+        ctx.violation("origin-not-verbatim", (so_ if not ok else og_).file_line(),
+                      "the origin is not kept as the operand of `.orig` for every value: set_orig stores %s, orig() returns %s%s - an origin such as x0000 can be "
+                      "lost or changed, and compile then writes another first word than the one the source asks for"
+                      % ([expr_str(so_.rvalue_expr(s_["r"], 6), 60) for b, s_ in stores], [expr_str(r_, 60) for r_ in rets_], " through %s" % [short(c or "?") for c in calls_] if calls_ else ""))
     ctx.finish_rule()
 
     # ------------------------------------------------------------------ R3
